@@ -36,8 +36,9 @@ class PathAlgebra:
     """Interprets a small, side-effect-free fragment of Python over pure paths (tuples of segments). It is applied to
     the *AST* of the predicate; the repository code itself is never executed."""
 
-    def __init__(self, env: Dict[str, Any]):
+    def __init__(self, env: Dict[str, Any], methods: Optional[Dict[str, Any]] = None):
         self.env = dict(env)
+        self.methods = methods or {}  # name -> Function: predicate methods of the class, interpreted when called as `self.<name>(...)`
 
     def run(self, fn_node: ast.AST) -> Any:
         try:
@@ -92,6 +93,8 @@ class PathAlgebra:
             raise _Unsupported(f"attribute {norm(e)}")
         if isinstance(e, (ast.Tuple, ast.List, ast.Set)):
             return [self.ev(x) for x in e.elts]
+        if isinstance(e, ast.IfExp):
+            return self.ev(e.body) if self.ev(e.test) else self.ev(e.orelse)
         if isinstance(e, ast.BoolOp):
             if isinstance(e.op, ast.And):
                 r: Any = True
@@ -143,6 +146,17 @@ class PathAlgebra:
             raise _Unsupported(f"division {norm(e)}")
         if isinstance(e, ast.Call):
             name = dotted(e.func)
+            if isinstance(e.func, ast.Attribute) and isinstance(e.func.value, ast.Name) and e.func.value.id == "self" and e.func.attr in self.methods:
+                h = self.methods[e.func.attr]
+                hp = [p_ for p_ in h.params if p_ != "self"]
+                henv = {k: v for k, v in self.env.items() if k.startswith("self.") or k == "None"}
+                for i_, a_ in enumerate(e.args):
+                    if i_ < len(hp):
+                        henv[hp[i_]] = self.ev(a_)
+                for k_ in e.keywords:
+                    if k_.arg in hp:
+                        henv[k_.arg] = self.ev(k_.value)
+                return PathAlgebra(henv, self.methods).run(h.node)
             if name in ("Path", "pathlib.Path", "str", "os.path.abspath", "os.path.realpath", "os.path.normpath") and len(e.args) == 1:
                 return self.ev(e.args[0])
             if name == "len" and len(e.args) == 1:
@@ -520,8 +534,8 @@ def run(repo: Repo, rep: Report, tier: str) -> None:
             for k_ in cj.keywords:
                 if k_.arg in hp:
                     henv[k_.arg] = pa.ev(k_.value)
-            return PathAlgebra(henv).run(h.node)
-        return PathAlgebra(env).ev(cj)
+            return PathAlgebra(henv, dict(cls.methods)).run(h.node)
+        return PathAlgebra(env, dict(cls.methods)).ev(cj)
 
     n_eval = 0
     fails = []
